@@ -36,6 +36,7 @@ EXPLANATION = (
   + common.SHARED_CLAUSES['validators']
   + " (FIN-lwsp) the white-space step of _process_element (run of text, linear white space, pruning), interpreted on sample paragraphs: runs collapse to one space, white space at the start / after a break and at the end / before a break goes, and a text node left or found empty disappears together with every span it leaves without children;"
   + " (PRUNE-sites) every `return None` of ISD._process_element is one of the grounds for leaving an element out of a snapshot - inactive at the offset, another region, display=none, the final emptiness rule; any other site, evaluated over every element kind with and without children, drops only what the final rule would drop (never an element with children, never an empty part of a ruby container);"
+  + " (TAB-styles, shared with C03) the table of style properties - inherited or not, initial value, applicability - equals TTML2's;"
 )
 RULE_TEXT = "per length-bearing property, per mutator call on ISD-owned values, per return site, per document parameter"
 UNDECIDED = ["white-space collapsing results", "emptiness pruning as semantics (no empty text node, no childless span)",
@@ -455,6 +456,8 @@ def check_text_roots(ctx):
 
 
 def run(ctx):
+  from . import c03 as _c03b
+  _c03b.check_style_tables(ctx)
   from ..rules import isdrules as _isdr
   ctx.floor("PRUNE-sites", "`return None` sites of _process_element", _isdr.check_prune_sites(ctx, ctx.ix.func("ttconv.isd:ISD._process_element")), 4)
   from ..rules import probes as _probes
